@@ -206,6 +206,28 @@ func (g *vStoreWorld) step(a map[string]interface{}) (out map[string]interface{}
 			}
 		}
 		vMust(st.SaveUserProfile(u, g.profile(u, v)))
+	case "sync_slowprimary":
+		// the primary turns slow while a synchronisation is under way (every statement on it takes 400 ms): a request that
+		// arrives meanwhile gives up on the primary after its time-out and is served from the replica - promptly
+		g.prim.mu.Lock()
+		g.prim.delayQ, g.prim.delayNext = 400*time.Millisecond, 900*time.Millisecond
+		g.prim.mu.Unlock()
+		st.remoteDBQueryTimeout = 40 * time.Millisecond
+		done := make(chan error, 1)
+		go func() { done <- copyDBIntoSQLite(st.db, st.cacheDB, "sqlite") }()
+		time.Sleep(1300 * time.Millisecond) // by now the replica's transaction is open and rows trickle in
+		t0 := time.Now()
+		_, found, fromCache, lerr := st.LoadUserProfile(u)
+		lat := time.Since(t0)
+		serr := <-done
+		time.Sleep(450 * time.Millisecond) // abandoned reads drain
+		g.prim.mu.Lock()
+		g.prim.delayQ, g.prim.delayNext = 0, 0
+		g.prim.mu.Unlock()
+		st.remoteDBQueryTimeout = 2 * time.Second
+		out["ok"] = serr == nil
+		out["authserved"] = lerr == nil && found && fromCache && lat < 1200*time.Millisecond
+		out["note"] = fmt.Sprintf("replica read took %v (found=%v fromCache=%v err=%v)", lat.Round(time.Millisecond), found, fromCache, lerr)
 	case "save_fault":
 		// the pk-th storage operation of this save fails (begin, prepare, the statement, commit): a save that says it
 		// worked has stored the profile
